@@ -912,9 +912,19 @@ impl<'a> Gen<'a> {
             8 => self.block_stmt(env),
             9 => self.compcall_stmt(env),
             10 => {
-                let open = self.tag("raw");
-                let close = self.tag("endraw");
-                format!("{}{}{}", open, self.rng.pick(&["{{ raw }}", "{% if %}", "plain", "<b>{#", "\u{e9}{{"]), close)
+                let body = self.rng.pick(&["{{ raw }}", "{% if %}", "plain", "<b>{#", "\u{e9}{{", " ", "\n", "\r\n", " \t ", "\u{a0}", "", "  x  ", "\n{% endra", "\u{3000}"]);
+                if self.rng.chance(1, 2) {
+                    // whitespace control on any of the four sides of a raw block, also around an
+                    // empty or whitespace-only body
+                    let d = self.cfg.delims.clone();
+                    let m = |g: &mut Self| if g.rng.chance(1, 2) { "-" } else { "" };
+                    let (a, b, c, e) = (m(self), m(self), m(self), m(self));
+                    format!("{}{} raw {}{}{}{}{} endraw {}{}", d.bs, a, b, d.be, body, d.bs, c, e, d.be)
+                } else {
+                    let open = self.tag("raw");
+                    let close = self.tag("endraw");
+                    format!("{}{}{}", open, body, close)
+                }
             }
             _ => {
                 let (l, r) = self.ws();
